@@ -181,13 +181,20 @@ def match(pattern, node, bindings=None):
 _STMT_RE = re.compile(r"^\s*(return\b|raise\b|del\b|assert\b|pass\b|break\b|continue\b|await\b.*=|[^=!<>]*[^=!<>+\-*/|&]=[^=])")
 
 
+_stmt_cache = {}
+
+
 def _is_stmt_src(src):
-    s = _prep(src)
-    try:
-        ast.parse(s, mode="eval")
-        return False
-    except SyntaxError:
-        return True
+    r = _stmt_cache.get(src)
+    if r is None:
+        s = _prep(src)
+        try:
+            ast.parse(s, mode="eval")
+            r = False
+        except SyntaxError:
+            r = True
+        _stmt_cache[src] = r
+    return r
 
 
 def find(pattern, root, nested=False, bindings=None):
